@@ -21,6 +21,8 @@ Record checker_cfg := {
   bare_builtins : list cls;                     (* the set literal tested in _is_instance *)
   conv_bare : list cls;                         (* the set literal tested in convert_to_typing_types *)
   conv_origins : list tname;                    (* builtin origins translated by convert_to_typing_types *)
+  conv_type_keeps_classes : bool;               (* type[C]: a class argument is kept, only generic arguments are converted *)
+  sig_catches : list exn;                       (* _instancecheck_callable: exceptions of inspect.signature answered with False *)
   handlers : list (list exn * haction);         (* except clauses of _check_type, in order *)
   mismatch_raises : exn;                        (* what assert_value_matches_type raises on a False verdict *)
   it_quant : quant;  it_index : nat;            (* _instancecheck_iterable *)
@@ -30,6 +32,7 @@ Record checker_cfg := {
   tu_len_check : bool;                          (* `if len(tup) != len(type_args): return False` *)
   tu_zip_quant : quant;
   un_quant : quant;                             (* any([...]) over the non-TypeVar members *)
+  un_bound_uses_result : bool;                  (* _check_union: `if _is_instance(<bound TypeVar>): return True` (not: call, then return True) *)
   lit_in : bool;                                (* `return value in type_args` *)
   ty_index : nat;                               (* _instancecheck_type: type_[ty_index] *)
   str_walks_mro : bool;                         (* string annotations: any(c.__name__ == type_ for c in type(value).__mro__) *)
